@@ -17,8 +17,8 @@ import (
 
 // blockingAccepted: frozen table (function, channel expression) -> reason.
 var blockingAccepted = map[string]string{
-	"(*candidate).startElection$1|send|λ$0":                                           "vote reply channel has capacity len(Latest.Nodes) >= number of request goroutines + self vote",
-	"(*leader).tryTransfer$1|send|λ$0":                                                "transfer reply channel has capacity 1 and exactly one sender per channel",
+	"(*candidate).startElection$1|send|λ:candidate.respCh":                                           "vote reply channel has capacity len(Latest.Nodes) >= number of request goroutines + self vote",
+	"(*leader).tryTransfer$1|send|λ:leader.transfer.respCh":                                                "transfer reply channel has capacity 1 and exactly one sender per channel",
 	"(*Raft).onTakeSnapshot$1|send|Raft.snapTakenCh":                                  "snapTakenCh has capacity 1 and one snapshot goroutine per channel; Raft.release waits for it",
 	"doTakeSnapshot|recv|fsmSnapReq.task.done":                                        "the FSM goroutine answers every fsmSnapReq (C15.4); it keeps running until Serve closes fsm.ch, which happens after Raft.release has waited for this goroutine",
 	"(*safeTimer).stop|recv|safeTimer.C":                                              "only when Stop() reported that the timer already fired and its tick was not consumed yet (active): the tick is in the channel",
